@@ -266,7 +266,21 @@ func UploadPack(
 		return fmt.Errorf("closing reader: %w", err)
 	}
 
-	objs, err := objectsToUpload(st, wants, haves)
+	var objs []plumbing.Hash
+	if len(upreq.Shallows) > 0 && upreq.Depth.IsZero() {
+		// The client is shallow: what it has ends at its shallow commits, so
+		// a "have" does not stand for everything below it. As for protocol v2
+		// (serveFetchV2), send what is reachable from the wants minus what is
+		// reachable from the haves, both cut at the client's boundary.
+		var newView, clientView []plumbing.Hash
+		newView, err = objectsToUpload(&shallowBoundaryStorer{Storer: st, boundary: upreq.Shallows}, wants, nil)
+		if err == nil {
+			clientView, err = objectsToUpload(&shallowBoundaryStorer{Storer: st, boundary: upreq.Shallows}, haves, nil)
+		}
+		objs = hashDifference(newView, clientView)
+	} else {
+		objs, err = objectsToUpload(st, wants, haves)
+	}
 	if err != nil {
 		_ = w.Close()
 		return fmt.Errorf("getting objects to upload: %w", err)
